@@ -52,6 +52,11 @@ ASSUMPTIONS = [
     "eager/compiled agreement is 'equal as real-number mathematics': a mismatch is reported only if the eager result "
     "is stable (to 1e-10*scale and in status) under four relative perturbations of x0 of size 2^-40; otherwise the "
     "algorithm map is discontinuous/ill-conditioned at this input and the case is counted as mismatch_unstable",
+    "objectives with an exactly linear coordinate (zero Hessian row/column with a non-zero gradient entry) next to "
+    "curved coordinates are not generated: the Hessian is singular with the gradient outside its range, CG is "
+    "ill-posed, the exact curvature of the second CG direction is 0 and its floating-point value (0 or +-1e-32) decides "
+    "between stopping and a step of size 1e31 (observed: eager takes it, compiled does not); exactly flat directions "
+    "are covered where the first CG direction -g has exactly zero curvature (family 'flat')",
     "time_threshold (wall clock) and name (logging) options are not generated",
 ]
 
@@ -706,6 +711,15 @@ def _theta_x0(draw, n, fam):
         for i in range(n - 1):
             th["r"][i] = draw(st.sampled_from([0.0, 0.0, 0.5, 1.0, 4.0]))
             th["s"][i] = draw(st.sampled_from([0.0, 1.0, 0.5, -1.0]))
+    if fam != "flat":
+        # no coordinate that is exactly linear (zero Hessian row, non-zero gradient entry) next to curved ones: there
+        # the exact curvature of a later CG direction is 0 and round-off alone decides between "stop" and a step of
+        # 1/round-off (see ASSUMPTIONS); exactly flat directions are generated by the "flat" family, where the very
+        # first CG direction has exactly zero curvature in floating point as well
+        for i in range(n):
+            own = th["a"][i] != 0 or th["b"][i] != 0 or th["c"][i] != 0 or (i > 0 and th["r"][i - 1] != 0)
+            if not own:
+                th["l"][i] = 0.0
     return th, x0
 
 
